@@ -184,12 +184,27 @@ impl varlink::Interface for ScriptIface {
                     ));
                 }
                 "upgrade" => call.to_upgraded(),
+                "stack" => {
+                    // a method implementation that uses a modest amount of stack (what any thread started
+                    // with the platform's defaults has many times over)
+                    let kb = a.get("kb").and_then(|v| v.as_u64()).unwrap_or(0) as usize;
+                    std::hint::black_box(burn_stack(kb));
+                }
                 "fail" => return Err(varlink::ErrorKind::Generic.into()),
                 _ => {}
             }
         }
         Ok(())
     }
+}
+
+#[inline(never)]
+fn burn_stack(kb: usize) -> u8 {
+    let mut page = [0u8; 1024];
+    page[kb % 1024] = kb as u8;
+    let below = if kb > 1 { burn_stack(kb - 1) } else { 0 };
+    std::hint::black_box(&mut page);
+    page[kb % 1024].wrapping_add(below)
 }
 
 pub struct VTestImpl;
